@@ -87,7 +87,7 @@ theorem C04_descend_ptr (cfg : StructCfg) (sn fname pt t n cus : Bytes) (fs : Fi
 
 /-- entries of a map field are named `Parent.Field[key]` -/
 theorem C04_entry_paths (cfg : StructCfg) (pathOpen ks : Bytes) (k v : GoVal) (rest : Entries) (st : WSt)
-    (hk : keyStr k = .ok ks) :
+    (hk : keyStr cfg.ext k = .ok ks) :
     entriesLoop cfg pathOpen (.cons k v rest) st
       = (validate cfg (pathOpen ++ ks ++ [93]) v true (st.mark 1) >>= fun st1 => entriesLoop cfg pathOpen rest st1) := by
   rw [entriesLoop]; simp [hk]; rfl
